@@ -93,4 +93,245 @@ theorem loopEF_hom (addA : A → A → A) (addB : B → B → B) (φ : A → B) 
 
 end hom
 
+/-! ## the two loop orders agree for a kernel that is symmetric under exchange of the pair
+
+No algebraic law of `add` is needed: with `f a b = swap (f b a)` both loops perform the
+same additions in the same order. -/
+section order
+variable {α A : Type}
+
+/-- `loopLF` with explicit initial accumulators for the particles still to come -/
+def loopLFg (add : A → A → A) (f : α → α → A × A) : List α → List A → List α → List A → List A
+  | _, accs, [], _ => accs
+  | done, accs, pi :: rest, ai :: ar =>
+    let res := inner add f pi ai done accs
+    loopLFg add f (done ++ [pi]) (res.2 ++ [res.1]) rest ar
+  | _, accs, _ :: _, [] => accs
+
+theorem loopLF_eq_g (add : A → A → A) (zero : A) (f : α → α → A × A) (done : List α) (accs : List A)
+    (rest : List α) :
+    loopLF add zero f done accs rest = loopLFg add f done accs rest (rest.map (fun _ => zero)) := by
+  induction rest generalizing done accs with
+  | nil => simp [loopLF, loopLFg]
+  | cons p r ih => simp [loopLF, loopLFg, ih]
+
+def swapK (f : α → α → A × A) : α → α → A × A := fun x y => ((f y x).2, (f y x).1)
+
+theorem loopLFg_peel (add : A → A → A) (f : α → α → A × A) (p : α) (a0 : A) (done : List α)
+    (accs : List A) (rest : List α) (ar : List A) :
+    loopLFg add f (p :: done) (a0 :: accs) rest ar =
+      (inner add (swapK f) p a0 rest ar).1 ::
+        loopLFg add f done accs rest (inner add (swapK f) p a0 rest ar).2 := by
+  induction rest generalizing a0 done accs ar with
+  | nil => simp [loopLFg, inner]
+  | cons q r ih =>
+    cases ar with
+    | nil => simp [loopLFg, inner]
+    | cons b ar' =>
+      simp only [loopLFg, inner, swapK, List.cons_append]
+      rw [ih]
+
+theorem inner_congr (add : A → A → A) (f g : α → α → A × A) (p : α) (a0 : A) (ps : List α) (as : List A)
+    (h : ∀ q ∈ ps, g p q = f p q) : inner add g p a0 ps as = inner add f p a0 ps as := by
+  induction ps generalizing a0 as with
+  | nil => simp [inner]
+  | cons q r ih =>
+    cases as with
+    | nil => simp [inner]
+    | cons b ar =>
+      simp only [inner, h q (by simp)]
+      rw [ih _ _ (fun q' hq' => h q' (by simp [hq']))]
+
+theorem loopLFg_eq_loopEF (add : A → A → A) (f : α → α → A × A) (l : List α) (as : List A)
+    (hlen : l.length = as.length)
+    (hsym : l.Pairwise (fun a b => swapK f a b = f a b)) :
+    loopLFg add f [] [] l as = loopEF add f l as := by
+  induction l generalizing as with
+  | nil => simp [loopLFg, loopEF]
+  | cons p r ih =>
+    cases as with
+    | nil => simp at hlen
+    | cons a0 ar =>
+      rw [List.pairwise_cons] at hsym
+      have hl : r.length = ar.length := by simpa using hlen
+      simp only [loopLFg, inner, List.nil_append, loopEF]
+      rw [loopLFg_peel, inner_congr add f (swapK f) p a0 r ar hsym.1]
+      rw [ih _ (by rw [inner_length _ _ _ _ _ _ hl]; exact hl) hsym.2]
+
+end order
+
+/-! ## dualisation of particle sets -/
+section kernels
+variable {K : Type} [Field K] [CharZero K]
+
+/-- real particle + ε · variational particle -/
+def dz1 (p : RV1 K) : GP (Dual K) :=
+  ⟨⟨p.1.m, p.2.m⟩, ⟨p.1.x, p.2.x⟩, ⟨p.1.y, p.2.y⟩, ⟨p.1.z, p.2.z⟩⟩
+def epsV (v : V3 (Dual K)) : V3 K := ⟨v.x.eps, v.y.eps, v.z.eps⟩
+def reV (v : V3 (Dual K)) : V3 K := ⟨v.x.re, v.y.re, v.z.re⟩
+
+def d4 (x a b c : K) : Dual2 K := ⟨⟨x, a⟩, ⟨b, c⟩⟩
+/-- real + ε₁ · (first order a) + ε₂ · (first order b) + ε₁ε₂ · (second order) -/
+def dz2 (p : RV2 K) : GP (Dual2 K) :=
+  ⟨d4 p.p.m p.da.m p.db.m p.dd.m, d4 p.p.x p.da.x p.db.x p.dd.x,
+   d4 p.p.y p.da.y p.db.y p.dd.y, d4 p.p.z p.da.z p.db.z p.dd.z⟩
+def epsV2 (v : V3 (Dual2 K)) : V3 K := ⟨v.x.eps.eps, v.y.eps.eps, v.z.eps.eps⟩
+
+/-- squared distance as the C code computes it (without softening) -/
+def r2of (a b : GP K) : K :=
+  (a.x - b.x)*(a.x - b.x) + (a.y - b.y)*(a.y - b.y) + (a.z - b.z)*(a.z - b.z)
+
+/-- what the theorems need of the square-root function on one pair: it squares back to
+    the squared distance, and the distance is not zero (the C code divides by it) -/
+def PairOK (sq : K → K) (a b : GP K) : Prop :=
+  sq (r2of a b) * sq (r2of a b) = r2of a b ∧ sq (r2of a b) ≠ 0
+
+omit [CharZero K] in
+theorem epsV_add (a b : V3 (Dual K)) : epsV (V3.add a b) = V3.add (epsV a) (epsV b) := rfl
+omit [CharZero K] in
+theorem reV_add (a b : V3 (Dual K)) : reV (V3.add a b) = V3.add (reV a) (reV b) := rfl
+omit [CharZero K] in
+theorem epsV2_add (a b : V3 (Dual2 K)) : epsV2 (V3.add a b) = V3.add (epsV2 a) (epsV2 b) := rfl
+
+/-- first order: the ε-part of the force kernel on duals is the hand-derived kernel
+    `var1Pair` (gravity.c:1038-1072), including the variational-mass terms -/
+theorem var1_pair (G : K) (sq : K → K) (pi pj : RV1 K) (h : PairOK sq pi.1 pj.1) :
+    epsV (forcePair (Dual.const G) Scalar.zero (Dual.sqrtLift sq) (dz1 pi) (dz1 pj)).1 = (var1Pair G sq pi pj).1 ∧
+    epsV (forcePair (Dual.const G) Scalar.zero (Dual.sqrtLift sq) (dz1 pi) (dz1 pj)).2 = (var1Pair G sq pi pj).2 := by
+  obtain ⟨⟨mi, xi, yi, zi⟩, ⟨dmi, dxi, dyi, dzi⟩⟩ := pi
+  obtain ⟨⟨mj, xj, yj, zj⟩, ⟨dmj, dxj, dyj, dzj⟩⟩ := pj
+  obtain ⟨hs, hne⟩ := h
+  have h2 : (2:K) ≠ 0 := by norm_num
+  simp only [r2of] at hs hne
+  simp only [forcePair, var1Pair, dz1, epsV, three, Dual.add_re, Dual.add_eps, Dual.sub_re, Dual.sub_eps,
+    Dual.mul_re, Dual.mul_eps, Dual.div_re, Dual.div_eps, Dual.neg_re, Dual.neg_eps,
+    Dual.sqrtLift_re, Dual.sqrtLift_eps, Dual.const_re, Dual.const_eps, Dual.zero_re, Dual.zero_eps,
+    sc_zero, sc_one, sc_hadd, sc_hsub, sc_hmul, sc_hdiv, sc_hneg, sc_ofNat, add_zero]
+  generalize hρ : sq ((xi - xj) * (xi - xj) + (yi - yj) * (yi - yj) + (zi - zj) * (zi - zj)) = ρ at *
+  rw [← hs]
+  push_cast
+  constructor <;> (congr 1 <;> (field_simp; ring))
+
+omit [CharZero K] in
+/-- the real part of the dual run is the ordinary force -/
+theorem re_pair (G : K) (sq : K → K) (pi pj : RV1 K) :
+    reV (forcePair (Dual.const G) Scalar.zero (Dual.sqrtLift sq) (dz1 pi) (dz1 pj)).1
+        = (forcePair G Scalar.zero sq pi.1 pj.1).1 ∧
+    reV (forcePair (Dual.const G) Scalar.zero (Dual.sqrtLift sq) (dz1 pi) (dz1 pj)).2
+        = (forcePair G Scalar.zero sq pi.1 pj.1).2 := by
+  constructor <;> rfl
+
+/-- components of `G/(r*r*r)`, `r = sqrt R`, on second-order duals -/
+theorem prefactD2 (G : K) (sq : K → K) (R : Dual2 K) (hρ : sq R.re.re ≠ 0) :
+    let ρ := sq R.re.re
+    let P := (Dual.const (Dual.const G) : Dual2 K) /
+      (Dual2.sqrtLift2 sq R * Dual2.sqrtLift2 sq R * Dual2.sqrtLift2 sq R)
+    P.re.re = G*ρ⁻¹^3 ∧ P.re.eps = -(3*G*R.re.eps*2⁻¹*ρ⁻¹^5) ∧
+    P.eps.re = -(3*G*R.eps.re*2⁻¹*ρ⁻¹^5) ∧
+    P.eps.eps = -(3*G*R.eps.eps*2⁻¹*ρ⁻¹^5) + 15*G*R.re.eps*R.eps.re*2⁻¹*2⁻¹*ρ⁻¹^7 := by
+  obtain ⟨⟨s, u⟩, ⟨v, w⟩⟩ := R
+  have h2 : (2:K) ≠ 0 := by norm_num
+  simp only at hρ
+  simp only [Dual2.sqrtLift2,
+    Dual.add_re, Dual.add_eps, Dual.sub_re, Dual.sub_eps,
+    Dual.mul_re, Dual.mul_eps, Dual.div_re, Dual.div_eps, Dual.neg_re, Dual.neg_eps,
+    Dual.sqrtLift_re, Dual.sqrtLift_eps, Dual.const_re, Dual.const_eps, Dual.zero_re, Dual.zero_eps,
+    Dual.ofNat_re, Dual.ofNat_eps,
+    sc_zero, sc_one, sc_hadd, sc_hsub, sc_hmul, sc_hdiv, sc_hneg, sc_ofNat, add_zero]
+  generalize sq s = ρ at *
+  push_cast
+  refine ⟨?_, ?_, ?_, ?_⟩
+  all_goals (field_simp; try ring)
+
+/-- second order: the ε₁ε₂-part of the force kernel on `Dual (Dual K)` is the hand-derived
+    kernel `var2Pair` (gravity.c:1177-1258) -/
+theorem var2_pair (G : K) (sq : K → K) (pi pj : RV2 K) (h : PairOK sq pi.p pj.p) :
+    epsV2 (forcePair (Dual.const (Dual.const G)) Scalar.zero (Dual2.sqrtLift2 sq) (dz2 pi) (dz2 pj)).1
+      = (var2Pair G sq pi pj).1 ∧
+    epsV2 (forcePair (Dual.const (Dual.const G)) Scalar.zero (Dual2.sqrtLift2 sq) (dz2 pi) (dz2 pj)).2
+      = (var2Pair G sq pi pj).2 := by
+  obtain ⟨⟨mi, xi, yi, zi⟩, ⟨mai, xai, yai, zai⟩, ⟨mbi, xbi, ybi, zbi⟩, ⟨mmi, xxi, yyi, zzi⟩⟩ := pi
+  obtain ⟨⟨mj, xj, yj, zj⟩, ⟨maj, xaj, yaj, zaj⟩, ⟨mbj, xbj, ybj, zbj⟩, ⟨mmj, xxj, yyj, zzj⟩⟩ := pj
+  obtain ⟨hs, hne⟩ := h
+  simp only [r2of] at hs hne
+  have key := prefactD2 G sq
+    ((d4 xi xai xbi xxi - d4 xj xaj xbj xxj) * (d4 xi xai xbi xxi - d4 xj xaj xbj xxj)
+      + (d4 yi yai ybi yyi - d4 yj yaj ybj yyj) * (d4 yi yai ybi yyi - d4 yj yaj ybj yyj)
+      + (d4 zi zai zbi zzi - d4 zj zaj zbj zzj) * (d4 zi zai zbi zzi - d4 zj zaj zbj zzj) + Scalar.zero)
+    (by simpa only [d4, Dual.add_re, Dual.sub_re, Dual.mul_re, Dual.zero_re, sc_zero, sc_hadd, sc_hsub,
+          sc_hmul, add_zero] using hne)
+  simp only [forcePair, dz2, epsV2]
+  simp only at key
+  generalize hP : (Dual.const (Dual.const G) : Dual2 K) / _ = P at key ⊢
+  obtain ⟨k0, k1, k2, k3⟩ := key
+  simp only [d4, Dual.add_re, Dual.add_eps, Dual.sub_re, Dual.sub_eps,
+    Dual.mul_re, Dual.mul_eps, Dual.neg_re, Dual.neg_eps, Dual.zero_re, Dual.zero_eps,
+    sc_zero, sc_hadd, sc_hsub, sc_hmul, sc_hneg, add_zero] at k0 k1 k2 k3 ⊢
+  rw [k0, k1, k2, k3]
+  simp only [var2Pair, var2Core, var2Upd, three, fifteen, sc_zero, sc_one, sc_hadd, sc_hsub, sc_hmul,
+    sc_hdiv, sc_hneg, sc_ofNat]
+  generalize hρ : sq ((xi - xj) * (xi - xj) + (yi - yj) * (yi - yj) + (zi - zj) * (zi - zj)) = ρ at *
+  rw [← hs]
+  push_cast
+  generalize xi - xj = dx
+  generalize yi - yj = dy
+  generalize zi - zj = dz
+  generalize xai - xaj = ax
+  generalize yai - yaj = ay
+  generalize zai - zaj = az
+  generalize xbi - xbj = bx
+  generalize ybi - ybj = bY
+  generalize zbi - zbj = bz
+  generalize xxi - xxj = cx
+  generalize yyi - yyj = cy
+  generalize zzi - zzj = cz
+  simp only [div_eq_mul_inv, mul_inv, one_mul]
+  constructor <;> (congr 1 <;> ring)
+
+omit [CharZero K] in
+theorem r2of_comm (a b : GP K) : r2of a b = r2of b a := by simp only [r2of]; ring
+
+set_option maxRecDepth 8000 in
+omit [CharZero K] in
+/-- the second-order kernel is symmetric under exchange of the pair (every term is odd in
+    the coordinate differences), so the `i<j` loop of the C code computes the same sums as
+    the `j<i` loop of the force -/
+theorem var2Pair_symm (G : K) (sq : K → K) (a b : RV2 K) :
+    swapK (var2Pair G sq) a b = var2Pair G sq a b := by
+  obtain ⟨⟨mi, xi, yi, zi⟩, ⟨mai, xai, yai, zai⟩, ⟨mbi, xbi, ybi, zbi⟩, ⟨mmi, xxi, yyi, zzi⟩⟩ := a
+  obtain ⟨⟨mj, xj, yj, zj⟩, ⟨maj, xaj, yaj, zaj⟩, ⟨mbj, xbj, ybj, zbj⟩, ⟨mmj, xxj, yyj, zzj⟩⟩ := b
+  simp only [swapK, var2Pair, var2Core, var2Upd, three, fifteen, sc_zero, sc_one, sc_hadd, sc_hsub,
+    sc_hmul, sc_hdiv, sc_hneg, sc_ofNat]
+  rw [show xj - xi = -(xi - xj) by ring]
+  generalize xi - xj = d0
+  rw [show yj - yi = -(yi - yj) by ring]
+  generalize yi - yj = d1
+  rw [show zj - zi = -(zi - zj) by ring]
+  generalize zi - zj = d2
+  rw [show xaj - xai = -(xai - xaj) by ring]
+  generalize xai - xaj = d3
+  rw [show yaj - yai = -(yai - yaj) by ring]
+  generalize yai - yaj = d4
+  rw [show zaj - zai = -(zai - zaj) by ring]
+  generalize zai - zaj = d5
+  rw [show xbj - xbi = -(xbi - xbj) by ring]
+  generalize xbi - xbj = d6
+  rw [show ybj - ybi = -(ybi - ybj) by ring]
+  generalize ybi - ybj = d7
+  rw [show zbj - zbi = -(zbi - zbj) by ring]
+  generalize zbi - zbj = d8
+  rw [show xxj - xxi = -(xxi - xxj) by ring]
+  generalize xxi - xxj = d9
+  rw [show yyj - yyi = -(yyi - yyj) by ring]
+  generalize yyi - yyj = d10
+  rw [show zzj - zzi = -(zzi - zzj) by ring]
+  generalize zzi - zzj = d11
+  rw [show -d0 * -d0 + -d1 * -d1 + -d2 * -d2 = d0 * d0 + d1 * d1 + d2 * d2 by ring]
+  generalize sq (d0 * d0 + d1 * d1 + d2 * d2) = ρ
+  generalize d0 * d0 + d1 * d1 + d2 * d2 = s
+  simp only [div_eq_mul_inv, mul_inv, one_mul]
+  refine Prod.ext ?_ ?_ <;> (congr 1 <;> first | ring1 | ring_nf)
+
+end kernels
+
 end RV.Var
